@@ -25,7 +25,12 @@ def escape_table(ctx, s):
     if sw is None:
         raise AnalysisError("escape dispatch not found in json_escape")
     cp = an.term[sw]["discr"]
-    ext = [(b, i) for b, i in an.calls() if (i["callee"] or "").endswith("::extend")]
+    # every call that adds bytes to the output vector (the escaper's second parameter), whatever the method
+    APPENDS = ("extend", "extend_from_slice", "push", "append", "insert", "push_str", "write_all", "resize",
+               "extend_from_within", "splice", "write")
+    is_out = lambda a: a[0] == "ref" and a[1] in (("local", 2), ("param", 2))
+    ext = [(b, i) for b, i in an.calls() if (i["callee"] or "").rsplit("::", 1)[-1] in APPENDS and i["args"] and is_out(i["args"][0])
+           and len(i["args"]) > 1]
     ext_blocks = {b for b, i in ext}
     rets = {b for b, i in an.term.items() if i["kind"] == "return"}
 
@@ -94,10 +99,12 @@ def escape_table(ctx, s):
     from ..prove import lin_add, lin_const
     P = ctx.E.prover(fn)
     arms = 0
+    from_input = lambda v: v == ("param", 1) or (v[0] in ("slice", "slicefrom", "sliceto") and v[1] == ("param", 1)) or \
+        (v[0] in ("ref", "byref", "unsize") and isinstance(v[1], tuple) and from_input(v[1]))
     for b, i in ext:
         src = i["args"][1]
-        if src[0] == "slice":
-            continue
+        if from_input(src):
+            continue            # input bytes copied: judged by verbatim-only-if-safe below
         from_default = {x for x in default_first if x[0] == b}
         kinds = {x[1] for x in from_default}
         is_fmt = appended(b, []) == "fmt" or "fmt" in kinds
@@ -127,15 +134,67 @@ def escape_table(ctx, s):
             if a[0] == "const" and c[0] == "const":
                 rs.append((a[1], c[1]))
     okr = sorted(rs) == SAFE_RANGES
-    s.add("S-TABLE", sf, "verbatim-ranges", "0x20-0x21,0x23-0x5B,0x5D-0x10FFFF", sf.sp, PROVED if okr else VIOLATION,
-          "exactly the scalar values other than controls, quote and backslash pass verbatim" if okr else
-          "the verbatim ranges are %s" % sorted((hex(a), hex(b)) for a, b in rs))
+    verdict = PROVED if okr else VIOLATION
+    why = "the verbatim ranges are %s" % sorted((hex(a), hex(b)) for a, b in rs)
+    if not rs:
+        # no range table: the test is written as comparisons.  Evaluate it at every constant it compares against and that
+        # constant's neighbours (a function of comparisons with constants is constant between them), and at all of 0..0x100
+        from ..srules import eval_fn_scalar
+        from ..sym import walk
+        consts = set()
+        for v in list(sa.stmt_val.values()) + [i.get("discr") for i in sa.term.values() if i.get("discr") is not None]:
+            if v is not None:
+                walk(v, lambda y: consts.add(y[1]) if (y[0] == "const" and isinstance(y[1], int) and not isinstance(y[1], bool)) else None)
+        for outs in (sa.cfg.out_edges.values() if isinstance(sa.cfg.out_edges, dict) else sa.cfg.out_edges):
+            for e in outs:
+                if e.label and e.label[0] == "switch" and isinstance(e.label[1], int):
+                    consts.add(e.label[1])
+        pts = set(range(0, 0x100)) | {0x10FFFF, 0xD7FF, 0xE000}
+        for k_ in consts:
+            pts |= {k_ - 1, k_, k_ + 1}
+        pts = sorted(c for c in pts if 0 <= c <= 0x10FFFF and not 0xD800 <= c <= 0xDFFF)
+        wrong, unknown = [], []
+        for c in pts:
+            r = eval_fn_scalar(s, sf, lambda y: y == ("param", 1), c)
+            if r is None or isinstance(r, tuple):
+                unknown.append(c)
+            elif bool(r) != (c >= 0x20 and c not in (0x22, 0x5C)):
+                wrong.append(c)
+        if wrong:
+            verdict, why = VIOLATION, "is_safe_char decides %s the other way than NIP-01 (controls, quote and backslash are escaped, all else verbatim)" % \
+                ", ".join(hex(c) for c in wrong[:6])
+        elif unknown:
+            verdict, why = UNDECIDED, "how is_safe_char decides was not recognised (no range table, and it could not be evaluated at %s): not decided" % hex(unknown[0])
+        else:
+            verdict = PROVED
+            ctx.instances["C08.is_safe_char evaluated points"] = len(pts)
+    s.add("S-TABLE", sf, "verbatim-ranges", "0x20-0x21,0x23-0x5B,0x5D-0x10FFFF", sf.sp, verdict,
+          "exactly the scalar values other than controls, quote and backslash pass verbatim" if verdict == PROVED else why)
     # verbatim copy and escapes are mutually exclusive: the copy is under is_safe_char == true
-    for b, i in an.calls():
-        if (i["callee"] or "").endswith("::extend") and i["args"][1][0] == "slice":
+    bulk_guard = lambda b_: bulk_scan_guard(ctx, s, fn, b_)
+    for b, i in ext:
+        if from_input(i["args"][1]):
             ok = any(f[0] == "true" and f[1][0] == "call" and f[1][1].endswith("::is_safe_char") for f in ctx.E.facts(fn, b))
-            s.add("S-DOM", fn, "verbatim-only-if-safe", "extend(input[..])", i["sp"], PROVED if ok else VIOLATION,
-                  "input bytes are copied verbatim only under is_safe_char" if ok else "input bytes can be copied verbatim without the safety test", b)
+            verdict, why = (PROVED, "input bytes are copied verbatim only under is_safe_char") if ok else (VIOLATION, "")
+            if not ok:
+                g = bulk_guard(b)
+                if g == "?":
+                    verdict, why = UNDECIDED, "input bytes are copied under a scan of the input whose predicate could not be evaluated: not decided"
+                elif g is not None:
+                    unsafe = sorted(c for c in g if c < 0x80 and not (c >= 0x20 and c not in (0x22, 0x5C)))
+                    utf8 = any(f[0] == "variant" and contains_value(f[1], lambda y: y[0] == "call" and y[1].endswith("from_utf8")) for f in ctx.E.facts(fn, b))
+                    if unsafe:
+                        verdict, why = VIOLATION, ("input is copied to the output in bulk when a scan finds none of the bytes it looks for, but "
+                                                   "the scan lets %s through: those are written raw where NIP-01 requires an escape" %
+                                                   ", ".join("0x%02x" % c for c in unsafe[:8]))
+                    elif utf8:
+                        verdict, why = PROVED, "the bulk copy is taken only when every byte is one that passes verbatim, and the input is valid UTF-8"
+                    else:
+                        verdict, why = UNDECIDED, "the bulk copy lets only verbatim bytes through; that the input is valid UTF-8 on that path is not decided"
+                else:
+                    why = ("input bytes can be copied to the output without the per-character safety test (is_safe_char): a control "
+                           "character, quote or backslash on that path is written raw")
+            s.add("S-DOM", fn, "verbatim-only-if-safe", "extend(input[..])", i["sp"], verdict, why, b)
     # the inverse arms of json_unescape
     un = ctx.fn("pocket_types::json::json_escape::json_unescape")
     ua = ctx.E.an(un)
@@ -205,13 +264,19 @@ def writer_escapes(ctx, s, nice_name, out_local_name="output", data_preds=None):
     ctx.functions.add(fn.path)
     n = 0
     bad = []
+    flagged = False
     for b, info in an.calls():
         c = info["callee"] or ""
-        if not (c.endswith("::extend") and "vec" in c):
+        if not (c.rsplit("::", 1)[-1] in ("extend", "extend_from_slice", "push", "append", "push_str", "write_all", "insert",
+                                          "extend_from_within", "splice") and ("vec" in c or "string" in c or "io::" in c)):
+            continue
+        if len(info["args"]) < 2:
             continue
         recv = info["args"][0]
-        src = info["args"][1]
-        srcv = info["pre"][1] if src[0] in ("ref", "unsize") and info["pre"][1] is not None else src
+        src = info["args"][-1]
+        if src[0] == "const":
+            continue            # a literal byte
+        srcv = info["pre"][-1] if src[0] in ("ref", "unsize") and info["pre"][-1] is not None else src
         n += 1
         if find_values(src, lambda x: x[0] == "bytes") and not _has_data(src):
             continue
@@ -223,16 +288,91 @@ def writer_escapes(ctx, s, nice_name, out_local_name="output", data_preds=None):
             continue
         if any(contains_value(x, lambda y: y[0] == "call" and (y[1] == ESCAPE or s.nice(y[1]) == ESCAPE)) for x in allv):
             continue
-        # anything else that is appended to the JSON text is raw data
+        # anything else that is appended to the JSON text is raw data - unless a scan of its bytes found only bytes that
+        # json_escape would copy unchanged
+        g = bulk_scan_guard(ctx, s, fn, b)
+        if g == "?":
+            s.add("S-ESCFLOW", fn, "raw-data-in-json", s.show(info["args"][-1], fn)[:60], info["sp"], UNDECIDED,
+                  "data is appended without json_escape under a scan of its bytes whose predicate could not be evaluated: not decided", b)
+            continue
+        if g is not None:
+            unsafe = sorted(c for c in g if c < 0x20 or c in (0x22, 0x5C))
+            if not unsafe:
+                continue
+            s.add("S-ESCFLOW", fn, "raw-data-in-json", s.show(info["args"][-1], fn)[:60], info["sp"], VIOLATION,
+                  "data is appended to the JSON text without json_escape when a scan of its bytes lets %s through: those need an "
+                  "escape, so the text written is not the JSON of the value (it reads back differently, or not at all)"
+                  % ", ".join("0x%02x" % c for c in unsafe[:8]), b)
+            flagged = True
+            continue
         bad.append((b, info))
     for b, info in bad:
-        s.add("S-ESCFLOW", fn, "raw-data-in-json", s.show(info["args"][1], fn)[:60], info["sp"], VIOLATION,
+        s.add("S-ESCFLOW", fn, "raw-data-in-json", s.show(info["args"][-1], fn)[:60], info["sp"], VIOLATION,
               "event/filter data is appended to JSON output without passing through json_escape", b)
-    if not bad:
+    if not bad and not flagged:
         s.add("S-ESCFLOW", fn, "data-escaped", nice_name.split("::")[-1], fn.sp, PROVED,
               "%d appends examined: data strings reach the output only through json_escape" % n)
     ctx.instances["S-ESCFLOW.%s appends" % nice_name.split("::")[-1]] = n
     return n
+
+
+def bulk_scan_guard(ctx, s, fn, b, src=None):
+    """a copy guarded by a scan of the bytes (`!x.iter().any(pred)` / `x.iter().all(pred)`): the byte values the scan lets
+    through, by evaluating pred for all 256 values; None when no such guard holds at block b, "?" when it cannot be evaluated"""
+    from ..srules import eval_fn_scalar
+    is_b = lambda y: y in (("param", 2), ("deref", ("param", 2)), ("init", ("deref", ("param", 2))),
+                           ("deref", ("deref", ("param", 2))), ("init", ("deref", ("deref", ("param", 2)))))
+
+    def closure_set(args, want):
+        cl = [a for a in args if a[0] == "agg" and isinstance(a[1], str) and a[1].startswith("closure:")]
+        cf = ctx.F.fns.get(cl[0][1][len("closure:"):]) if cl else None
+        if cf is None:
+            return "?"
+        allowed = set()
+        for c in range(256):
+            r = eval_fn_scalar(s, cf, is_b, c)
+            if r is None or isinstance(r, tuple):
+                return "?"
+            if bool(r) == want:
+                allowed.add(c)
+        return allowed
+    if src is not None:
+        # x[..n] with n = x.iter().take_while(pred).count(): every byte of the piece satisfies pred
+        v = src
+        while v[0] in ("ref", "byref", "unsize") and isinstance(v[1], tuple):
+            v = v[1]
+        hi = v[3] if v[0] == "slice" else (v[2] if v[0] == "sliceto" else None)
+        if hi is not None:
+            cnt = find_values(hi, lambda y: y[0] == "call" and y[1].rsplit("::", 1)[-1] == "count" and y[2] and
+                              y[2][0][0] == "call" and y[2][0][1].rsplit("::", 1)[-1] == "take_while")
+            if cnt:
+                return closure_set(cnt[0][2][0][2], True)
+    excluded = set()
+    for f in ctx.E.facts(fn, b):
+        t = f[1] if len(f) > 1 else None
+        if not (isinstance(t, tuple) and t and t[0] == "call" and f[0] in ("true", "false")):
+            continue
+        seg = t[1].rsplit("::", 1)[-1]
+        if seg == "contains" and f[0] == "false" and len(t[2]) == 2 and "slice" in t[1]:
+            if src is not None:
+                from ..sym import strip_sites
+                unw = lambda y: unw(y[1]) if (y[0] in ("ref", "byref", "unsize") and isinstance(y[1], tuple)) else y
+                if strip_sites(unw(t[2][0])) != strip_sites(unw(src)):
+                    continue            # a scan of some other piece
+            k = t[2][1]
+            while k[0] in ("ref", "byref") and isinstance(k[1], tuple):
+                k = k[1]
+            if k[0] == "promoted":
+                k = ctx.E.an(fn).promoted_pointee(k) or k
+            if k[0] == "const":
+                excluded.add(k[1])
+            continue
+        if seg not in ("any", "all") or (seg, f[0]) not in (("any", "false"), ("all", "true")):
+            continue
+        return closure_set(t[2], seg == "all")
+    if excluded:
+        return set(range(256)) - excluded
+    return None
 
 
 def _has_data(v):
@@ -328,3 +468,125 @@ def utf8_width_table(ctx, s):
     else:
         s.add("S-TABLE", fn, "utf8-width-boundaries", "0x80/0x800/0x10000", fn.sp, PROVED,
               "1 byte below 0x80, 2 below 0x800, 3 below 0x10000, 4 above (evaluated at the 8 boundary code points)")
+
+
+def _range_of(an, v):
+    """(lo, hi inclusive) of a range value built from constants (through references and promoted constants)"""
+    if not isinstance(v, tuple) or not v:
+        return None
+    if v[0] == "promoted":
+        v = an.promoted_pointee(v) or v
+    if v[0] in ("ref", "byref"):
+        return _range_of(an, v[1]) if isinstance(v[1], tuple) else None
+    if v[0] == "init" and v[1][0] == "deref":
+        return _range_of(an, v[1][1])
+    if v[0] == "agg" and isinstance(v[1], str) and v[1].endswith(":Range") and len(v[2]) == 2 and all(x[0] == "const" for x in v[2]):
+        return (v[2][0][1], v[2][1][1] - 1)
+    if v[0] == "agg" and "RangeInclusive" in str(v[1]) and len(v[2]) >= 2 and v[2][0][0] == "const" and v[2][1][0] == "const":
+        return (v[2][0][1], v[2][1][1])
+    if v[0] == "call" and "range" in v[1] and v[1].endswith("::new") and len(v[2]) == 2 and all(x[0] == "const" for x in v[2]):
+        return (v[2][0][1], v[2][1][1])
+    return None
+
+
+def surrogates_refused(ctx, s):
+    """S-DOM: json_unescape hands a \\u value to encode_utf8 only after it has been tested to lie outside D800..DFFF.  A
+    lone surrogate has no UTF-8 encoding: writing its three-byte form stores bytes that are not UTF-8, and a pair spelled as
+    two escapes would be stored as two such forms instead of the one scalar it denotes - the stored string then differs from
+    what any JSON reader reports."""
+    un = ctx.fn("pocket_types::json::json_escape::json_unescape")
+    ua = ctx.E.an(un)
+    P = ctx.E.prover(un)
+    ctx.functions.add(un.path)
+    enc = [(b, i) for b, i in ua.calls() if (i["callee"] or "").endswith("::encode_utf8")]
+    for b, i in enc:
+        c = i["args"][0]
+        facts = ctx.E.facts(un, b)
+        strip = lambda y: strip(y[1]) if (isinstance(y, tuple) and y and y[0] in ("byref", "ref") and isinstance(y[1], tuple)) else y
+        excluded = False
+        mentioned = False
+        for f in facts:
+            t = f[1] if len(f) > 1 else None
+            if not (isinstance(t, tuple) and t):
+                continue
+            if t[0] == "call" and t[1].rsplit("::", 1)[-1] == "contains" and len(t[2]) == 2 and strip(t[2][1]) == c:
+                r = _range_of(ua, t[2][0])
+                mentioned = True
+                if f[0] == "false" and r is not None and r[0] <= 0xD800 and r[1] >= 0xDFFF:
+                    excluded = True
+            elif contains_value(t, lambda y: y == c):
+                mentioned = True
+        if not excluded:
+            try:
+                if P.prove_lt(c, ("const", 0xD800, "u32"), facts) or P.prove_lt(("const", 0xDFFF, "u32"), c, facts):
+                    excluded = True
+            except Exception:
+                pass
+        if not excluded and c[0] == "const":
+            excluded = not (0xD800 <= c[1] <= 0xDFFF)
+        if not excluded and not mentioned:
+            # a test of this value anywhere (a disjunction whose arms merge before the call leaves no single dominating fact)
+            mentioned = bool(s.edges_where(un, lambda f: len(f) > 1 and isinstance(f[1], tuple) and
+                                           contains_value(f[1], lambda y: y == c) and
+                                           not (f[0] in ("variant", "notvariant"))))
+        verdict = PROVED if excluded else (UNDECIDED if mentioned else VIOLATION)
+        s.add("S-DOM", un, "surrogate-refused-before-encode", s.show(c, un)[:50], i["sp"], verdict,
+              "the value encoded was tested to lie outside D800..DFFF" if excluded else
+              ("the value encoded is tested, but not in a form that excludes D800..DFFF: not decided" if mentioned else
+               "a \\u value reaches encode_utf8 without any test against the surrogate range D800..DFFF: a surrogate escape is "
+               "accepted and stored as bytes that are not UTF-8 (and an escaped pair as two of them instead of one scalar)"), b)
+
+
+def raw_input_copies(ctx, s, names):
+    """S-ESCFLOW (reading): string bytes go from the JSON text into the packed form only through json_unescape.  A piece of
+    the input copied across as it stands is the string's value only if it holds nothing json_unescape would have changed or
+    refused: no backslash (an escape), no quote, no control character.  The scan that guards such a copy is evaluated for all
+    256 byte values."""
+    for name in names:
+        fn = ctx.fn(name)
+        an = ctx.E.an(fn)
+        ctx.functions.add(fn.path)
+        inp = None
+        for i in range(1, fn.argc + 1):
+            if fn.local_name(i) == "input":
+                inp = ("param", i)
+        if inp is None:
+            continue
+
+        def of_input(v):
+            while v[0] in ("ref", "byref", "unsize") and isinstance(v[1], tuple):
+                v = v[1]
+            if v[0] in ("slice", "slicefrom", "sliceto"):
+                return v[1] == inp or of_input(v[1])
+            return False
+        n = 0
+        for b, info in an.calls():
+            callee = info["callee"] or ""
+            last = (info["base"] or callee).rsplit("::", 1)[-1]
+            if not (s.nice(callee) == "pocket_types::json::put" or last in ("copy_from_slice", "clone_from_slice", "extend_from_slice")):
+                continue
+            src = info["args"][-1]
+            srcs = [src] + [p for p in info["pre"][-1:] if p is not None]
+            hit = [x for x in srcs if of_input(x)]
+            if not hit:
+                continue
+            n += 1
+            g = bulk_scan_guard(ctx, s, fn, b, hit[0])
+            if g == "?":
+                verdict, why = UNDECIDED, "a piece of the input is copied without json_unescape under a scan whose predicate could not be evaluated: not decided"
+            elif g is None:
+                verdict, why = VIOLATION, ("a piece of the JSON text is copied into the packed form as it stands, without json_unescape and "
+                                           "without a scan of its bytes: an escape in it is stored undecoded")
+            else:
+                unsafe = sorted(c for c in g if c < 0x20 or c in (0x22, 0x5C))
+                if unsafe:
+                    verdict, why = VIOLATION, ("a piece of the JSON text is copied into the packed form without json_unescape when a scan "
+                                               "of it lets %s through: an escape sequence (or a byte a JSON string may not hold) is stored "
+                                               "as it stands, so the value differs from what a JSON reader reports"
+                                               % ", ".join("0x%02x" % c for c in unsafe[:8]))
+                elif any(c >= 0x80 for c in g):
+                    verdict, why = UNDECIDED, "the copy lets bytes above 0x7F through; that they form valid UTF-8 is not decided"
+                else:
+                    verdict, why = PROVED, "the piece copied holds only ASCII bytes json_unescape would copy unchanged"
+            s.add("S-ESCFLOW", fn, "raw-input-copy", s.show(hit[0], fn)[:50], info["sp"], verdict, why, b)
+        ctx.instances["S-ESCFLOW.%s raw input copies" % name.rsplit("::", 1)[-1]] = n
